@@ -5,7 +5,9 @@
 (* distribution, and all observation sequences of length 1..MaxT.               *)
 (* Actions: VitFirst, VitStep*, VitEnd, VitTraceback.                           *)
 EXTENDS HmmExp
-CONSTANTS S, M, MaxT, Exps, InitExps, EndVecs
+CONSTANTS S, M, MaxT, Exps, InitExps, EndVecs,
+          CycSet,    \* parameter set of the lemma run
+          Cyc        \* TRUE: the models are the closed-form cycle family (lemma run)
 
 NoEnd == [k \in 1..S |-> 0]
 \* candidate end families
@@ -21,31 +23,40 @@ Models == {[s |-> S, m |-> M, a |-> ta, b |-> tb, pi |-> ti, eps |-> te] :
               ti \in [1..S -> InitExps], te \in EndVecs \cup {NoEnd}}
 ObsSeqs == UNION {[1..n -> 0..(M - 1)] : n \in 1..MaxT}
 
-VARIABLES m, obs, pc, i, rows, from, res
-vars == <<m, obs, pc, i, rows, from, res>>
+\* parameters of the cycle family explored by the lemma run (s = 3, 4; every move kind the
+\* strict minimum; zero entries; with / without end exponent)
+CycParams ==
+    {p \in [s : {3, 4}, m : {M}, s0 : 0..3, cs : {-1, 0, 1, 2}, cf : {-1, 0, 1, 2}, cb : {-1, 0, 1, 2},
+            big : {-1, 3}, pbig : {-1, 1}, eb : {0, 1}, ee : {0, 2}] : CycValid(p)}
+
+CycParamsQ == {p \in CycParams : p.eb = 0 /\ p.ee = 0 /\ p.big = 3}
+
+VARIABLES m, obs, pc, i, rows, from, res, par
+vars == <<m, obs, pc, i, rows, from, res, par>>
 T == Len(obs)
 
-Init == /\ m \in Models /\ obs \in ObsSeqs
+Init == /\ IF Cyc THEN par \in CycSet /\ m = CycleModel(par) ELSE par = 0 /\ m \in Models
+        /\ obs \in ObsSeqs
         /\ pc = "vit" /\ i = 0 /\ rows = << >> /\ from = << >> /\ res = [e |-> -1, path |-> << >>]
 VitFirst ==
     /\ pc = "vit" /\ i = 0
     /\ rows' = <<XVitRow0(m, obs[1])>> /\ from' = <<XFromRow0(m)>> /\ i' = 1
-    /\ UNCHANGED <<m, obs, pc, res>>
+    /\ UNCHANGED <<m, obs, pc, res, par>>
 VitStep ==
     /\ pc = "vit" /\ i >= 1 /\ i < T
     /\ rows' = Append(rows, XVitRow(m, rows[i], obs[i + 1]))
     /\ from' = Append(from, XFromRow(m, rows[i])) /\ i' = i + 1
-    /\ UNCHANGED <<m, obs, pc, res>>
+    /\ UNCHANGED <<m, obs, pc, res, par>>
 VitEnd ==
     /\ pc = "vit" /\ i = T
     /\ rows' = [rows EXCEPT ![T] = XEndRow(m, rows[T])] /\ pc' = "tb"
-    /\ UNCHANGED <<m, obs, i, from, res>>
+    /\ UNCHANGED <<m, obs, i, from, res, par>>
 VitTraceback ==
     /\ pc = "tb"
     /\ LET last == XVitLast(rows[T])
        IN  res' = [e |-> rows[T][last + 1], path |-> XVitTrace(from, T, last, <<last>>)]
     /\ pc' = "done"
-    /\ UNCHANGED <<m, obs, i, rows, from>>
+    /\ UNCHANGED <<m, obs, i, rows, from, par>>
 Next == VitFirst \/ VitStep \/ VitEnd \/ VitTraceback
 Spec == Init /\ [][Next]_vars
 
@@ -56,6 +67,13 @@ VitResult ==
     pc = "done" => /\ res.e = MinExpSet(m, obs)
                    /\ res.path \in ArgMinSet(m, obs)
                    /\ res = XMachineViterbi(m, obs)
+\* closed form of the cycle family = general definition (unique optimum)
+CycleLemma ==
+    (Cyc /\ pc = "done") =>
+        /\ MinExpSet(m, obs) = ClosedExp(par, T)
+        /\ ArgMinSet(m, obs) = {ClosedPath(par, T)}
+        /\ res.path = ClosedPath(par, T) /\ res.e = ClosedExp(par, T)
+        /\ T * Log2Ceil(par.s) >= 0
 \* the likelihood mantissa: max term <= sum <= (number of paths) * max term
 MantissaBound ==
     (pc = "done" /\ res.e < INF) =>
